@@ -15,7 +15,7 @@ RULE = ('cases = generated DSG spec (G-SEL u G-CONN with grouping nodes over con
         'and EVERY member is re-observed after EVERY operation; one evaluation = one operation; non-trivial = pool >= 3 '
         'with a grouping node whose members differ in existence between two members, or a constraint / value set on a '
         'copy; distinct by sha1(case)')
-BUDGET = {'quick': 100, 'thorough': 2500}
+BUDGET = {'quick': 200, 'thorough': 4000}
 OPS = ['copy', 'apply_sel', 'apply_sel', 'apply_sel', 'apply_conn', 'apply_conn', 'constrain', 'set_dv', 'set_metric',
        'decode', 'decode', 'iterate']
 
